@@ -1081,7 +1081,7 @@ class Interp:
                 raise PyRaise(SExc(AttributeError, (name,)))
             if ref is None:
                 return Method(("super", obj.obj, cls), name)
-            return FnVal(ref, None, obj.obj, cls)
+            return self.decorate_method(st, FnVal(ref, None, None, cls), obj.obj)
         if isinstance(obj, SObj):
             return self.obj_getattr(st, obj, name)
         if isinstance(obj, SOpaque):
